@@ -70,13 +70,14 @@ struct Case {
     bool defaultDisabled = false;   // do not touch the configuration's disabled list (PLAIN disabled by default)
     QString preferred;
     bool password = false;
+    bool emptyPasswordSet = false;   // setPassword("") was called: an empty (not null) string is no password either
     QString token;            // mechanism the stored token is for ("" = none)
     bool googleToken = false;
     int protocol = 0;         // 0 SASL1, 1 SASL2, 2 SASL2+FAST enabled, 3 SASL2+FAST offered but FAST disabled in config
     std::string describe() const
     {
         return "offered=[" + q(offered.join(u",")) + "] disabled=" + (defaultDisabled ? std::string("<default>") : "[" + q(disabled.join(u",")) + "]") + " preferred='" + q(preferred) +
-            "' password=" + (password ? "y" : "n") + " token='" + q(token) + "'" + (googleToken ? " google-token" : "") + " protocol=" +
+            "' password=" + (password ? "y" : emptyPasswordSet ? "empty-string" : "n") + " token='" + q(token) + "'" + (googleToken ? " google-token" : "") + " protocol=" +
             (protocol == 0 ? "SASL1" : protocol == 1 ? "SASL2" : protocol == 2 ? "SASL2+FAST" : "SASL2+FAST(disabled in config)");
     }
 };
@@ -133,6 +134,8 @@ static void runCase(Ctx &c, const Case &k)
     cfg.setJid(QStringLiteral("alice@example.org"));
     if (k.password)
         cfg.setPassword(QStringLiteral("pencil"));
+    else if (k.emptyPasswordSet)
+        cfg.setPassword(QStringLiteral(""));
     if (!k.defaultDisabled)
         cfg.setDisabledSaslMechanisms(k.disabled);
     if (!k.preferred.isEmpty())
@@ -285,6 +288,8 @@ VCHECK("c05.random", 80)
         k.offered.swapItemsAt(i, int(t.u(uint32_t(i + 1))));
     k.defaultDisabled = t.prob(1, 4);
     k.googleToken = t.prob(1, 4);
+    if (!k.password)
+        k.emptyPasswordSet = t.b();
     if (t.prob(1, 6))
         k.preferred = junk[int(t.u(uint32_t(junk.size())))];
     Expect e = reference(k);
